@@ -85,6 +85,10 @@ class LazyList:
             )
             if step < 0:
                 return LazyList(self.listify()[start:stop:step])
+            if start is not None and start < 0:
+                # Counted from the end, like a list: [-2:] of one item is
+                # that item
+                start = max(len(self) + start, 0)
             if stop is None:
 
                 @lazylist
